@@ -78,10 +78,11 @@ class MPUFileSink:
             for part in rest:
                 src_path = Path(part["Path"])
                 with src_path.open("rb") as src:
-                    with mmap.mmap(
-                        src.fileno(), 0, access=mmap.ACCESS_READ
-                    ) as src_bytes:
-                        f.write(src_bytes)
+                    if src_path.stat().st_size > 0:  # can't mmap an empty file
+                        with mmap.mmap(
+                            src.fileno(), 0, access=mmap.ACCESS_READ
+                        ) as src_bytes:
+                            f.write(src_bytes)
 
                 if not keep_parts:
                     src_path.unlink()
